@@ -297,7 +297,15 @@ where
                     // done concurrently.
                     loop {
                         select! {
-                            Some(message) = stream.next().instrument(span.clone()), if !sync_done_received => {
+                            message = stream.next().instrument(span.clone()), if !sync_done_received => {
+                                // The remote has not sent its Done message yet, so a closed
+                                // stream means the session can never complete. (Matching on
+                                // `Some(message)` here would only disable this branch and let
+                                // the loop spin forever on the closed stream.)
+                                let Some(message) = message else {
+                                    debug!(parent: &span, "Stream closed unexpectedly");
+                                    return Err(LogSyncError::UnexpectedStreamClosure);
+                                };
                                 let message =
                                     message
                                     .inspect_err(|error| debug!(parent: &span, ?error, "Log sync error"))
